@@ -216,7 +216,7 @@ def thread_jobs(tier, seed):
 
 SPECS['C17'] = dict(
     jobs=thread_jobs, level='exploration', technique='randomised multi-threaded workloads under ThreadSanitizer with per-thread result digests compared against single-threaded runs; concurrent phase first in fresh processes',
-    rule='Each case runs N in {2,3,4,8,16} threads released together by a barrier; every thread executes a seeded workload of 20..200 ops over the whole API on thread-private data (a fixed prelude touching every head kind, every float width, describe, the encoders; then cbor_load of well-formed and damaged inputs, construction programs, copy, serialize_alloc, fixed-buffer serialize, describe to a private memstream, streaming decode, low-level encoders, step-wise container growth, release). 48 (thorough 96) fresh processes, each starting with a concurrent phase before any single-threaded libcbor call so that first-use effects are contended; allocator configured once before threads start (C library malloc behind a stateless size cap / mutex-protected tracking allocator). Oracle: no ThreadSanitizer report (history_size=7, halt_on_error), and each thread digest (all bytes, codes, positions, describe text) equals the digest of the same workload run alone afterwards. Non-trivial = >=2 threads each with >=10 allocating ops; distinct by (thread count, seed).',
+    rule='Each case runs N in {2,3,4,8,16} threads released together by a barrier; every thread executes a seeded workload of 20..200 ops over the whole API on thread-private data (a fixed prelude touching every head kind, every float width, describe, the encoders; then cbor_load of well-formed and damaged inputs, construction programs, copy, serialize_alloc, fixed-buffer serialize, describe to a private memstream, streaming decode, low-level encoders, step-wise container growth, release). 48 (thorough 96) fresh processes, each starting with a concurrent phase before any single-threaded libcbor call so that first-use effects are contended; allocator configured once before threads start (C library malloc behind a stateless size cap / mutex-protected tracking allocator). Oracle: no ThreadSanitizer report (history_size=7, halt_on_error), and each thread digest (all bytes, codes, positions, describe text) equals the digest of the same workload run alone afterwards; the harness also interposes the libc functions that mutate process-wide state (setlocale with a locale argument, setenv/putenv/unsetenv, srand, chdir) and any call made while a workload runs is a violation. Non-trivial = >=2 threads each with >=10 allocating ops; distinct by (thread count, seed).',
     assumptions=[COMMON_ASSUME[2], 'ThreadSanitizer reports a race whenever two conflicting accesses without a happens-before edge both occur in a run, independent of their order; the harness does not own the scheduler, so shared state protected by atomics or locks is only visible through the result digests',
                  'TSAN_OPTIONS=history_size=7: with the default history a planted static-counter race was dropped in 4 of 6 probe runs'],
     level_text='Exploration of schedules by repeated randomised runs; detection of hidden mutable globals does not depend on the interleaving, detection of semantic interference does.',
